@@ -7,7 +7,7 @@ variable {ι : Type} [DecidableEq ι] (P : Params) (hf : ι → Nat → Option (
 omit [DecidableEq ι] in
 /-- a memory view with an empty must-set that is behind the block's version -/
 theorem viewOK_stale_empty {X' : Nat} {s' : SInfo ι} {f : Filter} {i : VInfo ι} (hm : isMem f = true)
-    (hk : i.promised = true → 1 ≤ f.numHashes) (hlt : i.sync < s'.ver) : ViewOK P hf X' s' f { i with M := [] } := by
+    (hk : i.promised = true → KOK f) (hlt : i.sync < s'.ver) : ViewOK P hf X' s' f { i with M := [] } := by
   have hin : insync s' f { i with M := [] } = false := insync_mem_false_of_lt hm hlt
   refine ⟨fun _ => rfl, fun _ _ _ => hlt, hk, ?_, Covers.nil _ _ _ _, ?_, ?_, ?_, fun _ => Nat.le_of_lt hlt, fun _ _ => rfl, ?_⟩
   · intro y hy; cases hy
@@ -37,10 +37,10 @@ theorem good_init (hP : P.Wire) (w : World) (p : PGhost ι) (hg : Good P hf w p)
   have hfr : fn.ref = .mem m := by rw [← hfdef]
   have hfm : isMem fn = true := by rw [← hfdef]; rfl
   have hparse : parseImage P ⟨w.blockLen m, x⟩ = .full fn.capBits fn.numHashes fn.seed 0 (roundUp64 nb / 64) := by
-    rw [← hxdef, ← hfdef]; exact parse_init P hP _ _ _ _ _ hlen hcap.1 hcap.2 hcaplt hnh hseed
+    rw [← hxdef, ← hfdef]; exact parse_init P hP _ _ _ _ _ hlen hcap.1 hcap.2 hcaplt hnh hseed hnb.2
   have hclear : ∀ j, j < fn.capBits → x.testBit (256 + j) = false := by
     intro j hj; rw [← hxdef]; rw [← hfdef] at hj; exact init_bits_clear P _ _ _ _ j hj hcap.2
-  have hfw : FWF fn := by rw [← hfdef]; exact ⟨hcap.1, hcap.2, hcaplt, hnh, hseed⟩
+  have hfw : FWF fn := by rw [← hfdef]; exact ⟨hcap.1, hcap.2, Nat.lt_trans hcaplt (by decide), hnh, hseed⟩
   have hver : ∀ k, ((((p.setS (Key.mem m) ⟨[], (p.si (Key.mem m)).ver + 1, false⟩).mapViewsOf w (Key.mem m) (fun i => { i with M := [] })).setV v
       ⟨[], true, (p.si (Key.mem m)).ver + 1⟩).si k) = if k = .mem m then ⟨[], (p.si (Key.mem m)).ver + 1, false⟩ else p.si k := by
     intro k
@@ -72,7 +72,7 @@ theorem good_init (hP : P.Wire) (w : World) (p : PGhost ι) (hg : Good P hf w p)
       refine ⟨?_, ?_, ?_, ?_, Covers.nil _ _ _ _, ?_, ?_, ?_, ?_, ?_, ?_⟩
       · intro h; cases h
       · intro h; cases h
-      · intro _; rw [← hfdef]; exact hnb.2
+      · intro _; rw [← hfdef]; exact ⟨hnb.2, hcaplt⟩
       · intro y hy; cases hy
       · intro h; exact absurd rfl h
       · intro _ _ _
@@ -107,7 +107,7 @@ theorem good_init (hP : P.Wire) (w : World) (p : PGhost ι) (hg : Good P hf w p)
       simp only [if_true]
       right
       refine ⟨_, _, _, _, _, hparse, ?_, Or.inr ?_, Covers.nil _ _ _ _, ?_⟩
-      · rw [← hfdef]; exact hnb.2
+      · rw [← hfdef]; exact ⟨hnb.2, hcaplt⟩
       · simp only; exact (popCount_zero_of x 256 fn.capBits hclear).symm
       · intro y hy; cases hy
     · have hk : Key.mem m' ≠ Key.mem m := by intro h; injection h with h; exact e h
